@@ -481,7 +481,8 @@ def check(run):
     from elftools.elf.segments import NoteSegment
     run.rule = ('G cases = finished extents of the Notes writer (size sweep over namesz/descsz residues incl. header-only notes and '
                 'trailing padding, owner x type x e_type sweep, decoded descriptors incl. property lists under several e_types, '
-                'declared alignment - p_align x sh_addralign in {0, 1, 4, 8, 16} - x sizes that tell 4- from 8-byte padding apart, stabs), '
+                'declared alignment - p_align x sh_addralign in {0, 1, 4, 8, 16} - x sizes that tell 4- from 8-byte padding apart, decoded '
+                'descriptors behind a plain note that puts them at file offsets 4 mod 8, stab sections of several units each led by its N_UNDF header), '
                 'each exposed as SHT_NOTE '
                 'section and PT_NOTE segment of one ELF image and consumed in 8 iterator patterns; distinct by file bytes; '
                 'non-trivial = at least one note / stab record.  T cases = note sections and segments of the corpus files; '
@@ -497,6 +498,9 @@ def check(run):
                         'a file is a core file iff e_type = ET_CORE; every other e_type (ET_NONE, OS- and processor-specific) '
                         'uses the GNU note type names',
                         'in ET_CORE files types 3 and NT_FILE are generated with owner "CORE" and a well-formed descriptor only',
+                        'the elements of a property list follow one another by their padded sizes (linux-abi: pr_padding is part of the element), '
+                        'whatever the file offset of the descriptor',
+                        'the count in an N_UNDF unit header of a stab section covers its own unit; every 12-byte record up to sh_size is a stab',
                         'corpus extents whose notes overrun the extent (dwarf_phantombytes.elf marks DWARF sections SHT_NOTE) '
                         'are not well-formed inputs and are not judged']
     # (Notes_quick_all = Notes_quick.cfg + mode "align")
@@ -504,6 +508,8 @@ def check(run):
     seen = set()
     ctx = None
     nalign = {'extents': 0, 'where 8-byte padding would walk differently': 0}
+    nprops = {'extents with a property list': 0, 'where alignment by file offset would walk the list differently': 0}
+    nunits = {'stab sections': 0, 'with a unit header that does not cover the rest of the section': 0}
     provers = _apalache_start(run)
     for cfg in cfgs:
         res = run.tlc('Notes', cfg)
@@ -524,12 +530,17 @@ def check(run):
             seen.add(key)
             if case['mode'] == 'stabs':
                 run.count(key, nontrivial=bool(case['stabs']))
+                nunits['stab sections'] += 1
+                nunits['with a unit header that does not cover the rest of the section'] += 1 if case['tag'] == 'stabs/units' else 0
                 _replay_stabs(run, case, ELFFile)
             else:
                 run.count(key, nontrivial=bool(case['notes']))
                 if case['mode'] == 'align':
                     nalign['extents'] += 1
                     nalign['where 8-byte padding would walk differently'] += 1 if case['alt8'] else 0
+                if any(n['dk'] == 'props' for n in case['notes']):
+                    nprops['extents with a property list'] += 1
+                    nprops['where alignment by file offset would walk the list differently'] += 1 if case['propabs'] else 0
                 _replay_notes(run, ctx, case, ELFFile, NoteSection, NoteSegment, tables['tables'])
             if len(run.samples) < 3 and run.evaluations % 2500 == 77:
                 run.samples.append({'mode': case['mode'], 'tag': case['tag'], 'cls': case['cls'], 'le': case['le'],
@@ -538,6 +549,11 @@ def check(run):
                                                for n in case.get('notes', [])] or case.get('stabs')})
     run.validated = run.evaluations
     run.extra['align_cases'] = nalign
+    run.extra['property_list_cases'] = nprops
+    run.extra['stab_unit_cases'] = nunits
+    if run.tier == 'quick' and not (nprops['where alignment by file offset would walk the list differently'] and
+                                    nunits['with a unit header that does not cover the rest of the section']):
+        raise core.MachineryError('the quick configuration no longer generates property lists off their alignment / multi-unit stab sections')
     # termination in its liveness form (fair walker steps lead to "done") on a small instance; nothing is emitted
     run.tlc('Notes', 'Notes_live', emit=False)
     _trace_check(run)
@@ -545,6 +561,6 @@ def check(run):
     run.extra['exhaustive'] = True
     run.extra['explanation'] = ('exhaustive within the bounds of the configuration(s) %s (see the cfg comment blocks); '
                                 'TLC checks EveryNoteOnce, ExtentConsumed, SectionViewEqualsSegmentView, NotesTile, DescRoundTrip, OnlyDefiningOwnerDecodes, '
-                                'StabsExact, ImageCarriesExtent, AlignOnlyInHeaders, WalkerProgress and Termination on the specification itself' % ', '.join(cfgs))
+                                'StabsExact, UnitsTile, PropsRelative, ImageCarriesExtent, AlignOnlyInHeaders, WalkerProgress and Termination on the specification itself' % ', '.join(cfgs))
     if not run.samples:
         run.samples.append({'note': 'no sample'})
